@@ -203,6 +203,9 @@ class Diagram(object):
         self.rels = []
         self.enums = []           # [(name, [enumerators], where)]
         self.udts = []            # [(name, base type name, where)]
+        self.twin_types = []      # [('enum' | 'udt', name, enumerators | core base name, where)]: a further data type carrying the
+                                  # name of one that exists in another package (names are unique per package only); no
+                                  # attribute or user type refers to it
         self.sdts = []            # structured types [(name, where)] (not supported as attribute type by the XSD generator)
         self.functions = []       # [(Callable_, where)]
         self.ees = []             # [(name, key letters, [Callable_], where)]
@@ -295,6 +298,20 @@ def build(d, rows=None):
         pe(i, where, 3)
         R.add('S_DT', DT_ID=i, Name=name)
         R.add('S_UDT', DT_ID=i, CDT_DT_ID=dt[base], Gen_Type=0)
+
+    for kind_, name, payload, where in d.twin_types:
+        i = R.new_id()
+        pe(i, where, 3)
+        R.add('S_DT', DT_ID=i, Name=name)
+        if kind_ == 'enum':
+            R.add('S_EDT', DT_ID=i)
+            prev = 0
+            for e in payload:
+                ei = R.new_id()
+                R.add('S_ENUM', Enum_ID=ei, Name=e, EDT_DT_ID=i, Previous_Enum_ID=prev)
+                prev = ei
+        else:
+            R.add('S_UDT', DT_ID=i, CDT_DT_ID=dt[payload], Gen_Type=0)
 
     for name, where in d.sdts:
         i = R.new_id()
@@ -685,27 +702,42 @@ def reference_xsd(d, component='comp'):
     return types, classes
 
 
+def reference_xsd_twins(d, component='comp'):
+    '''the further declarations expected for the same-named types of d.twin_types: [(name, definition)]'''
+    inside = IN_COMPONENT if component == 'comp' else IN_SECOND_COMPONENT
+    out = []
+    for kind_, name, payload, where in d.twin_types:
+        if where in inside or where not in ALL_COMPONENT_CONTAINERS:
+            out.append((name, ('enum', list(payload)) if kind_ == 'enum' else ('restriction', payload)))
+    return out
+
+
 def observed_xsd(root):
     '''the same structure read from an ElementTree / minidom-reparsed schema element'''
     def local(tag):
         return tag.split('}')[-1].split(':')[-1]
     types, classes, problems = {}, {}, []
+    further = []
     comps = []
     for ch in list(root):
         if local(ch.tag) == 'simpleType':
             name = ch.get('name')
             res = [x for x in list(ch) if local(x.tag) == 'restriction']
-            if name in types:
-                problems.append('simple type %r declared twice' % name)
+            again = name in types
             if len(res) != 1:
                 problems.append('simple type %r has %d restrictions' % (name, len(res)))
                 continue
             enums = [x.get('value') for x in list(res[0]) if local(x.tag) == 'enumeration']
             base = res[0].get('base')
             if base == 'xs:string' and (enums or name not in XS_CORE) and name != 'string':
-                types[name] = ('enum', enums)
+                definition = ('enum', enums)
             else:
-                types[name] = ('restriction', base)
+                definition = ('restriction', base)
+            if again:
+                # a second declaration under one name: right exactly when the model holds two data types of that name
+                further.append((name, definition))
+            else:
+                types[name] = definition
         elif local(ch.tag) == 'element':
             comps.append(ch)
     if len(comps) != 1:
@@ -723,4 +755,4 @@ def observed_xsd(root):
                             problems.append('attribute %s.%s declared twice' % (kl, a.get('name')))
                         attrs[a.get('name')] = a.get('type')
                 classes[kl] = attrs
-    return types, classes, problems
+    return types, classes, problems, further
